@@ -147,7 +147,7 @@ def run(R):
     fb = fileio.FileBase.__new__(fileio.FileBase)
     src = ("import io, sys, tempfile, os\nfrom sigpyproc.io.fileio import FileWriter\n"
            "d = tempfile.mkdtemp(); w = FileWriter(os.path.join(d, 'x'), mode='w', nbits=8)\n"
-           "ok = type(w.file_obj) is io.FileIO\nw.close(); sys.exit(0 if ok else 1)\n")
+           "ok = type(w.file_obj) is io.FileIO\nw.close()\nprint('unbuffered' if ok else 'MISMATCH: FileWriter does not write through an unbuffered io.FileIO')\nsys.exit(0 if ok else 1)\n")
     import tempfile, os
     with tempfile.TemporaryDirectory() as d:
         w = fileio.FileWriter(os.path.join(d, "x"), mode="w", nbits=8)
